@@ -9,6 +9,7 @@ Bad1 == [w |-> "ok", c |-> <<"rej", "ok">>, v |-> <<1, 1>>]
 Bad2 == [w |-> "ok", c |-> <<"ok", "rej">>, v |-> <<1, 1>>]
 BadBoth == [w |-> "ok", c |-> <<"rej", "rej">>, v |-> <<2, 2>>]
 Short == [w |-> "short", c |-> <<"ok">>, v |-> <<1>>]
+Empty == [w |-> "empty", c |-> <<>>, v |-> <<>>]
 Long == [w |-> "long", c |-> <<"ok", "ok", "ok">>, v |-> <<1, 1, 1>>]
 T(rows) == [rows |-> rows, fault |-> 0]
 F(rows, k) == [rows |-> rows, fault |-> k]
